@@ -6,7 +6,8 @@ import UBidi.Props.C01Tie
 namespace UBidi.Props.C11Tie
 open UBidi
 
-theorem C11_tie_explicit_arms (c : BidiClass) : C01Tie.armOf Gen.Code.arms_explicit_compute c = C01Tie.explicitArm c := C01Tie.tie_explicit_arms c
+theorem C11_tie_explicit_arms (c d : BidiClass) :
+    (C01Tie.armOf Gen.Code.arms_explicit_compute c = C01Tie.armOf Gen.Code.arms_explicit_compute d) ↔ (C01Tie.explicitArm c = C01Tie.explicitArm d) := C01Tie.tie_explicit_arms c d
 theorem C11_tie_class_is_rtl (c : BidiClass) : Gen.Code.class_is_rtl c = c.isRtlInitiator := C01Tie.tie_class_is_rtl c
 
 end UBidi.Props.C11Tie
